@@ -282,7 +282,63 @@ def m_overlap_migration(doc, rng, extra):
     return "migration:overlap"
 
 
-OPERATORS = [m_overlap_migration, m_overlap_migration, m_set_leaf, m_set_leaf, m_delete, m_unknown_field, m_rename_field, m_time_field, m_time_field, m_rate,
+def m_near_sizes(doc, rng, extra):
+    """start and end sizes of one epoch that differ only by a relative 2^-40: still a size change,
+    so it is not allowed in an infinite first epoch or with size_function constant"""
+    cands = [p for p in paths(doc) if p and isinstance(p[-1], int) and len(p) >= 2 and p[-2] == "epochs" and isinstance(get(doc, p), dict)]
+    if not cands:
+        return None
+    first = [p for p in cands if p[-1] == 0]
+    p = rng.choice(first if first and rng.random() < 0.6 else cands)
+    e = get(doc, p)
+    ss = e.get("start_size", e.get("end_size", 100))
+    if not isinstance(ss, (int, float)) or isinstance(ss, bool) or not (0 < ss < INF):
+        ss = 100
+    e["start_size"] = ss
+    e["end_size"] = ss * (1 + 2.0 ** -40) if rng.random() < 0.7 else ss * (1 - 2.0 ** -40)
+    r = rng.random()
+    if r < 0.3:
+        e["size_function"] = "constant"
+    elif r < 0.6:
+        e.pop("size_function", None)
+    return "size:near_equal"
+
+
+def m_pulse_multi_source(doc, rng, extra):
+    """a pulse with several sources whose time is the start (or end) time of ONE of them"""
+    demes = [d for d in doc.get("demes", []) if isinstance(d, dict) and isinstance(d.get("name"), str)]
+    if len(demes) < 3:
+        return None
+    timed = [d for d in demes if isinstance(d.get("start_time"), (int, float)) and 0 < d["start_time"] < INF]
+    if not timed:
+        return None
+    a = rng.choice(timed)
+    others = [d for d in demes if d is not a]
+    b, c = rng.sample(others, 2)
+    srcs = [a["name"], b["name"]]
+    rng.shuffle(srcs)
+    pulse = {"sources": srcs, "dest": c["name"], "time": a["start_time"], "proportions": [0.125, 0.25]}
+    doc.setdefault("pulses", [])
+    if not isinstance(doc["pulses"], list):
+        return None
+    doc["pulses"].append(pulse)
+    return "pulse:at_one_source_start"
+
+
+def m_sym_big_rate(doc, rng, extra):
+    """a single symmetric migration among k >= 3 demes whose rate is fine for one pair but makes
+    the total rate into each deme k-1 times as large"""
+    names = [d.get("name") for d in doc.get("demes", []) if isinstance(d, dict) and isinstance(d.get("name"), str)]
+    if len(names) < 3:
+        return None
+    k = rng.randint(3, min(4, len(names)))
+    group = rng.sample(names, k)
+    rate = rng.choice([0.5, 0.5 + 2.0 ** -40, 0.75, 1, 0.375, 0.25])
+    doc["migrations"] = [{"demes": group, "rate": rate}]
+    return "migration:symmetric_total_rate"
+
+
+OPERATORS = [m_near_sizes, m_pulse_multi_source, m_sym_big_rate, m_overlap_migration, m_overlap_migration, m_set_leaf, m_set_leaf, m_delete, m_unknown_field, m_rename_field, m_time_field, m_time_field, m_rate,
              m_proportions, m_size, m_size_function, m_names, m_defaults, m_defaults, m_header, m_migration_shape]
 
 
